@@ -64,3 +64,22 @@ Example C16_ex2 :
   signed_form [x61; SP; TAB; LF; DASH; SP; x62; SP; CR; LF; x63; SP] =
   [x61; CR; LF; DASH; SP; x62; CR; LF; x63].
 Proof. vm_compute. reflexivity. Qed.
+
+(* converting a line between LF and CR LF endings does not change what is signed, whatever the
+   line's content (blanks, CRs, dashes ...); stated per line -- the lift to whole texts through
+   split_inclusive is covered by the exhaustive correspondence run, not by a theorem *)
+Theorem C16_line_signed_form_lf_crlf_invariant_partial :
+  forall c, ends_in_cr c = false -> canon (ut_line (c ++ [LF])) = canon (ut_line (c ++ [CR; LF])).
+Proof. exact ut_line_lf_crlf. Qed.
+Print Assumptions C16_line_signed_form_lf_crlf_invariant_partial.
+
+(* the pinned tree copied the line ending as found: a content CR followed by blanks was merged
+   with the LF behind it ("a" CR SP LF signed as "a" CR LF), and the conversion changed the signed form *)
+Theorem C16_merged_line_end_refuted :
+  exists t, signed_form_merged (canon t) <> signed_form_merged t.
+Proof. exact signed_form_merged_refuted. Qed.
+Print Assumptions C16_merged_line_end_refuted.
+
+Example C16_ex_cr_blank_lf :
+  signed_form [x61; CR; SP; LF] = [x61; CR; CR; LF] /\ signed_form (canon [x61; CR; SP; LF]) = [x61; CR; CR; LF].
+Proof. split; vm_compute; reflexivity. Qed.
